@@ -14,6 +14,14 @@ Inductive xaxis := AxIndex | AxColumns.        (* index=index  /  index=immutabl
 Inductive xname := NameRow | NameColumn.       (* name=name_row  /  name=name_column *)
 Inductive xdec := DecSeries (src : xsrc) (idx : xaxis) (name : xname) | DecFrame.
 
+(* the classes of row key TypeBlocks._slice_blocks tells apart when it decides single_row (shared with Gen/Gen_c04.v) *)
+Inductive rkkind := RNull | RInt | RSlice | RMask | RIter.
+Definition rkkind_eqb (a b : rkkind) : bool :=
+  match a, b with
+  | RNull, RNull | RInt, RInt | RSlice, RSlice | RMask, RMask | RIter, RIter => true
+  | _, _ => false
+  end.
+
 Section Select.
 Context {A L : Type}.
 Variable leqb : L -> L -> bool.          (* label equality (dictionary key equality) *)
@@ -103,6 +111,17 @@ Definition S_extract (f : sframe) (rk ck : ckey) : res xres :=
 (* ---- TypeBlocks._slice_blocks: single_row (type_blocks.py:1976-1995) ---- *)
 Fixpoint count_true (m : list bool) : Z :=
   match m with [] => 0 | true :: r => 1 + count_true r | false :: r => count_true r end.
+
+(* the decision as a function of the key class and the quantity each class looks at: shape[0], the length of the
+   range the slice denotes, mask.sum(), len(key)  (Proofs/SelectDecision.v: equal to the chain REGENERATED from the source into Gen/Gen_c04.v) *)
+Definition single_row_dec (kind : rkkind) (rows range_n count len : Z) : bool :=
+  match kind with
+  | RNull => rows =? 1
+  | RInt => true
+  | RSlice => range_n =? 1
+  | RMask => count =? 1
+  | RIter => len =? 1
+  end.
 
 Definition single_row (rk : ckey) (nrows : Z) : res bool :=
   match rk with
